@@ -344,6 +344,19 @@ impl Prop for C05 {
                 }
                 // `=v` on a flag
                 if o.value.is_none() && idx.len() == 1 {
+                    // a cluster of two flags with a value attached: `-vq=x`
+                    let item = &argv[first];
+                    if item.len() == 2 && item[0] == b'-' && item[1].is_ascii_alphanumeric() {
+                        let (flags, _) = case.level.visible_shorts();
+                        if let Some(c2) = flags
+                            .iter()
+                            .find(|c| c.is_ascii() && **c as u8 != item[1])
+                        {
+                            let mut a = argv.clone();
+                            a[first] = format!("-{}{}=x", item[1] as char, c2).into_bytes();
+                            probes.push(("value-on-flag", a));
+                        }
+                    }
                     // a plain value, and values that look like something else
                     for stray in [&b"=v"[..], &b"=--"[..], &b"="[..], &b"=-x"[..]] {
                         let mut a = argv.clone();
